@@ -73,6 +73,19 @@ CHECKS = {
             "by the constructor or elaborate, simulate and convert.",
             "Monitor in vchecks/c13.py; inputs never change in the same instant as an edge.",
             "DESIGN.md §4 C13"),
+    "C16": ("exploration",
+            "exhaustive sweep of the catalogue x data widths + Hypothesis-generated parameter sets, word sequences and "
+            "per-cycle (start, valid, data) schedules, differential against a bit-serial Williams register model and the "
+            "frozen published check values",
+            "Every catalogue entry is compared with the published parameters/check value and, for 11+ data widths and "
+            "seeded messages, with an independent bit-at-a-time register model; random parameter sets (incl. even "
+            "polynomials, all reflection combinations, data width <,=,> crc width) extend this beyond the catalogue. The "
+            "hardware Processor is simulated on generated schedules with idle gaps, restarts and start with/without valid, "
+            "and match_detected is checked positively (own CRC in transmission order) and negatively (all other trailers "
+            "for crc_width<=8, sampled otherwise).",
+            "Oracle: vchecks/c16.py williams_* (shares no code with amaranth.lib.crc); refdata/crc_catalog.json is a frozen "
+            "copy of the reveng values. Negative match clause only for polynomials with constant term 1.",
+            "DESIGN.md §4 C16"),
 }
 
 TITLES = {}
